@@ -344,12 +344,54 @@ func checkDerivedSite(p *packages.Package, fd *ast.FuncDecl, call *ast.CallExpr)
 		}
 		return false
 	}
+	guarded := false
 	for _, e := range gi.Enclosing {
 		if ifs, isI := e.Node.(*ast.IfStmt); isI && e.Branch && holds(ifs.Cond) {
-			return ""
+			guarded = true
 		}
 	}
-	return "the UPC-A re-labelling drops the first character without testing that it is '0'"
+	if !guarded {
+		return "the UPC-A re-labelling drops the first character without testing that it is '0'"
+	}
+	// the metadata of the checked result (orientation, symbology identifier, extension) moves to the new one
+	srcName := strings.TrimSuffix(base, ".GetText()")
+	var newObj types.Object
+	if as, isA := enclosingStmt(fd.Body, call).(*ast.AssignStmt); isA && len(as.Lhs) == 1 {
+		newObj = identObj(p, as.Lhs[0])
+	}
+	if newObj == nil {
+		return "the re-labelled result is not kept in a variable, so the source's metadata cannot have been copied"
+	}
+	copied := ""
+	for _, pc := range findCalls(p, fd.Body, func(o types.Object) bool { return isMethodNamed(o, "", "Result", "PutAllMetadata") }) {
+		sel, isS := pc.Fun.(*ast.SelectorExpr)
+		if !isS || identObj(p, sel.X) != newObj || len(pc.Args) != 1 {
+			continue
+		}
+		if exprString(pc.Args[0]) != srcName+".GetResultMetadata()" {
+			copied = "PutAllMetadata does not copy the metadata of the source result " + srcName
+			continue
+		}
+		copied = "ok"
+		// a guard around the copy may only test the source's metadata
+		g, _ := guardsOf(fd.Body, enclosingStmt(fd.Body, pc))
+		for _, e := range g.Enclosing {
+			ifs, isI := e.Node.(*ast.IfStmt)
+			if !isI || ifs.Pos() < call.Pos() {
+				continue
+			}
+			if usesIdent(p, ifs.Cond, newObj) || exprString(ifs.Cond) != srcName+".GetResultMetadata() != nil" {
+				copied = "the metadata copy is guarded by `" + exprString(ifs.Cond) + "`; only a nil test of the source's metadata may guard it (the new result's metadata is always empty here)"
+			}
+		}
+	}
+	switch copied {
+	case "ok":
+		return ""
+	case "":
+		return "the re-labelled result does not receive the source result's metadata (ORIENTATION, symbology identifier): PutAllMetadata(" + srcName + ".GetResultMetadata()) missing"
+	}
+	return copied
 }
 
 // ---------------------------------------------------------------------------------------------------------------
